@@ -482,8 +482,13 @@ class DBSessionContextManager(object):
                 try: can_commit = db_session.allowed_exceptions(exc)
                 except: rollback_and_reraise(sys.exc_info())
             if can_commit:
-                commit()
-                for cache in _get_caches(): cache.release()
+                try:
+                    commit()
+                    for cache in _get_caches(): cache.release()
+                except:
+                    # PartialCommitException (or a failing release) leaves the caches that were committed
+                    # in local.db2cache: the next db_session of this thread would trip over them
+                    rollback_and_reraise(sys.exc_info())
                 assert not local.db2cache
             else:
                 try: rollback()
